@@ -2,13 +2,13 @@ CONFIG = {
     "manifest": {
         "text": "Theorems (Qed, closed under the global context) on the engine step machine shared with C01: a completed range delete removes exactly the points of the "
                 "selected series inside the inclusive range from files and hot cache and leaves every other point unchanged (what an in-flight cache snapshot holds is "
-                "characterised exactly); for every history without a delete overlapping an in-flight snapshot that holds matching points, reads after any continuation "
-                "(snapshots, compactions, crashes inside/after the delete, restarts) equal the last-write-wins spec over the effective history (partial: the excluded shape "
-                "is refuted by a checked witness and recorded as a known finding); the listing rebuilt by recovery lists a series iff a key of it is left in a file index "
-                "or the cache. The model is diffed against a real tsdb.Store after every operation of generated histories (reads and listings).",
+                "characterised exactly); for every history in which deletes and cache snapshots exclude each other (Engine.snapshotMu, repaired code: run_mu) reads after any "
+                "continuation (snapshots incl. failed and retried ones, compactions, crashes inside/after the delete, restarts) equal the last-write-wins spec over the "
+                "effective history (mutex_makes_histories_clean + delete_permanent; the shape the mutex excludes is refuted by a checked witness, which is why the mutex is "
+                "needed); the listing rebuilt by recovery lists a series iff a key of it is left in a file index or the cache. The model is diffed against a real tsdb.Store "
+                "after every operation of generated histories (reads and listings); deletes issued from a second goroutine inside an in-flight snapshot must be held back.",
         "note": "Trusts Coq kernel, harness and canonicaliser; series selection by tag predicate is the index's job (C14): the model takes the selected series keys; "
-                "TSM/tombstone byte formats, TSI, series file, fields.idx are not modelled. Known findings: delete during in-flight snapshot, series listed after "
-                "piecewise deletes.",
+                "TSM/tombstone byte formats, TSI, series file, fields.idx are not modelled. Known finding: series listed after piecewise deletes.",
         "technique": "Coq proof (step-semantics theorem + invariant over arbitrary step lists) + differential correspondence on a real tsdb.Store with a pause hook inside WriteSnapshot",
     },
     "harness": "h_c10",
@@ -20,12 +20,13 @@ CONFIG = {
     "rule": "designed histories first (deletes over cache / one file / several files with every continuation; a delete spanning all points; two single-instant deletes; "
             "last series of a measurement; drop measurement; whole-database and whole-measurement deletes with open-ended ranges; the in-flight-snapshot delete), then seeded "
             "histories of 5-13 operations on 2 measurements x 3 series x 4 fields (write 42%, range delete 20% in three selection forms and five range forms, drop measurement 4%, "
-            "snapshot 14%, compaction 8%, crash-restart 12%); one history in twelve places a delete inside an in-flight snapshot through the verifPoint hook. After EVERY operation: "
+            "snapshot 11%, failed snapshot (retained by the cache) 3%, compaction 8%, crash-restart 12%); one history in four issues a delete from a second goroutine inside an in-flight snapshot (verifPoint hook 'snapshot.written') and records whether it was held back until the snapshot was committed. After EVERY operation: "
             "full-range ascending read of every key ever written (Shard.CreateIterator) and the listed series (Store.MeasurementNames/TagKeys/TagValues). Each run yields two cases: "
             "kind hist (reads vs last-write-wins spec) and kind list (listed iff points remain). distinct = distinct history; non-trivial = values read back and >1 observation",
     "trusted_base": [
         "C10: the selected series keys are taken from the request (the harness selects by tag value / measurement / database; predicate evaluation by the index is C14's subject)",
-        "C10: one client operation at a time; the delete inside an in-flight snapshot is placed by the verifPoint hook 'snapshot.written' (writeSnapshotAndCommit, before FileStore.Replace)",
+        "C10: one client operation at a time, except the delete issued from a second goroutine at the verifPoint hook 'snapshot.written' (writeSnapshotAndCommit, before FileStore.Replace): held back = not finished within 150 ms and finished after WriteSnapshot returned",
+        "C10: Engine.snapshotMu is modelled as the step discipline mu_ok (DeleteBegin only with no snapshot in flight or retained, SnapBegin only with no delete running); sync.Mutex itself is trusted",
         "C10: crash images are directory copies of the quiescent store; torn delete entries are exercised by C01's harness on the same model",
     ],
     "modelled": "Engine.deleteSeriesRange (tombstone per overlapping file, hot-cache range removal, WAL delete entry, index reconciliation incl. the key-presence rule of "
